@@ -1043,7 +1043,7 @@ func Entry() int {
 				defer watchdog(seed, time.Duration(n)*time.Second)()
 			}
 		}
-		cs := c.Gen(simrt.NewRand(seed), tier)
+		cs := c.genFor(os.Getenv("VERIF_LEG"))(simrt.NewRand(seed), tier)
 		o := safeExec(c, cs, true)
 		b, _ := json.MarshalIndent(o, "", " ")
 		fmt.Printf("case: %s\noutcome: %s\n", cs, b)
@@ -1076,45 +1076,55 @@ func runSelftest(root uint64) int {
 			fmt.Fprintf(os.Stderr, "unknown check %s\n", id)
 			return 2
 		}
-		digests := make([]map[int]string, nseeds)
-		for i := range digests {
-			digests[i] = map[int]string{}
+		legs := []string{""}
+		for _, l := range c.Legs {
+			legs = append(legs, l.Name)
 		}
-		var mu sync.Mutex
-		for rep, par := range []int{1, 4, 16} {
-			sem := make(chan struct{}, par)
-			var wg sync.WaitGroup
-			for i := 0; i < nseeds; i++ {
-				wg.Add(1)
-				sem <- struct{}{}
-				go func(i int) {
-					defer wg.Done()
-					defer func() { <-sem }()
-					cmd := exec.Command(os.Args[0], "-test.run", "^TestEntry$", "-test.timeout", "0", "-test.cpu", "1", "-test.count", "1")
-					cmd.Env = append(os.Environ(), "VERIF_ROLE=digest", "VERIF_CHECK="+id, "VERIF_ONE="+strconv.FormatUint(seedFor(root, i), 10), "VERIF_TIER=quick")
-					outb, _ := cmd.CombinedOutput()
-					d := "no-digest"
-					for _, l := range strings.Split(string(outb), "\n") {
-						if strings.HasPrefix(l, "@@D ") {
-							d = strings.TrimSpace(l[4:])
+		for _, leg := range legs {
+			digests := make([]map[int]string, nseeds)
+			for i := range digests {
+				digests[i] = map[int]string{}
+			}
+			var mu sync.Mutex
+			for rep, par := range []int{1, 4, 16} {
+				sem := make(chan struct{}, par)
+				var wg sync.WaitGroup
+				for i := 0; i < nseeds; i++ {
+					wg.Add(1)
+					sem <- struct{}{}
+					go func(i int) {
+						defer wg.Done()
+						defer func() { <-sem }()
+						cmd := exec.Command(os.Args[0], "-test.run", "^TestEntry$", "-test.timeout", "0", "-test.cpu", "1", "-test.count", "1")
+						cmd.Env = append(os.Environ(), "VERIF_ROLE=digest", "VERIF_CHECK="+id, "VERIF_ONE="+strconv.FormatUint(seedFor(root, i), 10), "VERIF_TIER=quick", "VERIF_LEG="+leg)
+						outb, _ := cmd.CombinedOutput()
+						d := "no-digest"
+						for _, l := range strings.Split(string(outb), "\n") {
+							if strings.HasPrefix(l, "@@D ") {
+								d = strings.TrimSpace(l[4:])
+							}
 						}
-					}
-					mu.Lock()
-					digests[i][rep] = d
-					mu.Unlock()
-				}(i)
+						mu.Lock()
+						digests[i][rep] = d
+						mu.Unlock()
+					}(i)
+				}
+				wg.Wait()
 			}
-			wg.Wait()
-		}
-		div := 0
-		for i := range digests {
-			if digests[i][0] != digests[i][1] || digests[i][0] != digests[i][2] || digests[i][0] == "no-digest" {
-				div++
-				fmt.Printf("selftest %s seed#%d diverged: %v\n", id, i, digests[i])
+			div := 0
+			for i := range digests {
+				if digests[i][0] != digests[i][1] || digests[i][0] != digests[i][2] || digests[i][0] == "no-digest" {
+					div++
+					fmt.Printf("selftest %s seed#%d diverged: %v\n", id, i, digests[i])
+				}
 			}
+			name := id
+			if leg != "" {
+				name = id + " (leg " + leg + ")"
+			}
+			fmt.Printf("selftest %s: %d seeds x 3 executions (parallelism 1/4/16): %d diverged\n", name, nseeds, div)
+			bad += div
 		}
-		fmt.Printf("selftest %s: %d seeds x 3 executions (parallelism 1/4/16): %d diverged\n", id, nseeds, div)
-		bad += div
 	}
 	if bad > 0 {
 		return 2
@@ -1123,7 +1133,7 @@ func runSelftest(root uint64) int {
 }
 
 func digestOne(c *Check, seed uint64, tier string) {
-	cs := c.Gen(simrt.NewRand(seed), tier)
+	cs := c.genFor(os.Getenv("VERIF_LEG"))(simrt.NewRand(seed), tier)
 	o := safeExec(c, cs, true)
 	h := simrt.HashBytes(0, cs)
 	for _, l := range o.Log {
